@@ -73,7 +73,8 @@ def replay(rec, ctx):
 
 
 # clamp_to_zero is read-only after construction (cdef readonly): it is configuration, not a supported mutator
-ALL = sorted(p for p in S.PARAMS if p != "A_clampZero")
+REPOINT = S.REPOINT      # single-valued: re-assign the plasma already referenced
+ALL = sorted([p for p in S.PARAMS if p != "A_clampZero"] + REPOINT)
 CFG = """SPECIFICATION Spec
 CONSTANTS
   MaxHist = {maxhist}
